@@ -166,6 +166,7 @@ theorem written_fam (d : Delivery) (a : Ans) (m : Bool) (n : Nat) (h : contentFa
   cases content with
   | bad => simp [contentFam] at h
   | chunk id => simp [contentFam] at h; simp [written, Content.fam, h]
+  | chunkPre pre => simp [contentFam] at h; simp [written, Content.fam, h]
   | pad o c v => simp [contentFam] at h; simp [written, Content.fam, h]
   | txs l =>
     simp [contentFam] at h
